@@ -12,7 +12,7 @@ from warnings import warn
 import jax.numpy as jnp
 import numpy as np
 import pandas as pd
-from jax import jit, vmap
+from jax import ensure_compile_time_eval, jit, vmap
 from jax.lax import ScatterDimensionNumbers, scatter_add
 from matplotlib.axes import Axes
 
@@ -734,6 +734,13 @@ class Module(ABC):
         they can be processed on GPU/TPU and such that the simulation can be
         differentiated. `.to_jax()` copies the `.nodes` to `.jaxnodes`.
         """
+        # The tables are concrete values. Evaluate eagerly, even if `integrate()` is
+        # being traced by `jit`, `vmap` or `grad`, such that no tracer is stored on
+        # the module (a leaked tracer breaks later views, `deepcopy` and `pickle`).
+        with ensure_compile_time_eval():
+            self._to_jax()
+
+    def _to_jax(self):
         self.base.jaxnodes = {}
         for key, value in self.base.nodes.to_dict(orient="list").items():
             inds = jnp.arange(len(value))
